@@ -24,7 +24,13 @@ ASSUMPTIONS = [
 
 ALPHA = ["a", "<", ">", "&", "\"", "'", "é", " ", "\n", "]"]
 WORDS = ["]]>", "&amp;", "<para>", "\U0001F600", "a  b", " a ", "&#38;", "<!--", "</a>",
-         "Pre&amplifier", "B&ltd", "Q&gt x", "R&D", "&am", "&#", "&;", "a]]>b<c", "<para", "para>", "&lt", "&gt", "&amp"]
+         "Pre&amplifier", "B&ltd", "Q&gt x", "R&D", "&am", "&#", "&;", "a]]>b<c", "<para", "para>", "&lt", "&gt", "&amp",
+         # text that looks like inline markup other than the para tag of the documented workaround
+         "<emphasis>", "</emphasis>", "<emphasis>a</emphasis>", "<subscript>2</subscript>", "</superscript>", "<section>",
+         "<title>", "<PARA>", "< para>", "<para/>", "<ulink url=\"u\">", "<b>a</b>", "<?pi x?>", "<![CDATA[x]]>",
+         # characters some line-splitting / whitespace routines treat specially but XML does not
+         "a\u2028b", "a\u2029b", "a\u0085b", "a\u00a0b", "a\tb", "a\n\nb", "a\u200bb", "a\ufeffb", "a\u3000b",
+         "a\u2003b", "\ufffd", "a\u0301"]
 EML_EXCLUDED = ("&amp;", "&lt;", "&gt;", "<para>", "</para>")
 NAMES = ["a", "b", "a-b.c_1", "é_n"]
 
@@ -35,11 +41,11 @@ def strings(n, attr_slot):
     for k in range(1, n + 1):
         for t in itertools.product(alpha, repeat=k):
             out.append("".join(t))
-    out += [w for w in WORDS]
+    out += [w for w in WORDS if not (attr_slot and ("\t" in w or "\n" in w))]
     return out
 
 
-PAIR_WORDS = ["]]>", "&amp;", "<para>", "\U0001F600", " a ", "Pre&amplifier", "&#"]
+PAIR_WORDS = ["]]>", "&amp;", "<para>", "\U0001F600", " a ", "Pre&amplifier", "&#", "</emphasis>", "a\u2028b"]
 
 
 def small_strings(attr_slot):
